@@ -117,6 +117,12 @@ type WalkOpts struct {
 	CompareLog   bool // compare the handler invocation log after every step
 	AfterEnd     int  // further Next calls after the first end marker, all must report the end (C12)
 	AfterEndArgs []int
+	// StateKey, if set, returns a canonical dump of the whole state of the real side (runner,
+	// storer). It lets the exploration after the end stop as soon as a call leaves the state
+	// unchanged: the runner being deterministic in its state, every longer sequence of calls then
+	// behaves like a prefix already explored. Without it (or when the state does change) every
+	// sequence of AfterEnd arguments is executed on a fresh replay.
+	StateKey     func(r *Real, storer variable.Storer) string
 	AfterError   int  // further Next calls after the first error: must return without panic (C06)
 	StrictErrors bool // errors of the model must be errors of the implementation at the same step
 	Seed         string
@@ -231,29 +237,43 @@ func Walk(p *Program, srcs []string, hs *HostSpec, o WalkOpts) (*Mismatch, WalkS
 		if o.MaxJumps > 0 {
 			m.MaxJumps = o.MaxJumps
 		}
-		var storer variable.Storer
-		if o.NewStorer != nil {
-			storer = o.NewStorer()
-		} else {
-			storer = variable.NewInMemoryStorer()
-		}
-		if hs != nil {
-			for k, v := range hs.Vars {
-				switch v.K {
-				case VNum:
-					storer.SetNumberValue(k, v.N)
-				case VBool:
-					storer.SetBooleanValue(k, v.B)
-				case VStr:
-					storer.SetStringValue(k, v.S)
-				}
-			}
-		}
 		seed := o.Seed
 		if seed == "" {
 			seed = "abc"
 		}
-		r, err, pan := NewReal(srcs, seed, storer)
+		type run struct {
+			r      *Real
+			storer variable.Storer
+			log    []string
+		}
+		newRun := func() (*run, error, string) {
+			x := &run{}
+			if o.NewStorer != nil {
+				x.storer = o.NewStorer()
+			} else {
+				x.storer = variable.NewInMemoryStorer()
+			}
+			if hs != nil {
+				for k, v := range hs.Vars {
+					switch v.K {
+					case VNum:
+						x.storer.SetNumberValue(k, v.N)
+					case VBool:
+						x.storer.SetBooleanValue(k, v.B)
+					case VStr:
+						x.storer.SetStringValue(k, v.S)
+					}
+				}
+			}
+			r, err, pan := NewReal(srcs, seed, x.storer)
+			if err != nil || pan != "" {
+				return nil, err, pan
+			}
+			x.r = r
+			hs.Install(r.DR, &x.log)
+			return x, nil, ""
+		}
+		x, err, pan := newRun()
 		var path, args []int
 		var trace []string
 		fail := func(clause, detail string) {
@@ -268,8 +288,8 @@ func Walk(p *Program, srcs []string, hs *HostSpec, o WalkOpts) (*Mismatch, WalkS
 			fail("load-error", "NewDialogueRunner refused a well-formed script: "+err.Error())
 			return
 		}
-		var rlog []string
-		hs.Install(r.DR, &rlog)
+		r, storer := x.r, x.storer
+		rlog := &x.log
 		mo := m.Start()
 		afterOptions := false
 		for step := 0; ; step++ {
@@ -309,7 +329,7 @@ func Walk(p *Program, srcs []string, hs *HostSpec, o WalkOpts) (*Mismatch, WalkS
 				return
 			}
 			if o.CompareLog {
-				if a, b := strings.Join(m.Log, ";"), strings.Join(rlog, ";"); a != b {
+				if a, b := strings.Join(m.Log, ";"), strings.Join(*rlog, ";"); a != b {
 					fail("handler-log", fmt.Sprintf("step %d: handler invocations expected [%s], got [%s]", step, a, b))
 					return
 				}
@@ -329,28 +349,72 @@ func Walk(p *Program, srcs []string, hs *HostSpec, o WalkOpts) (*Mismatch, WalkS
 			if mo.K == OEnd {
 				st.EndsReached++
 				// absorbing end (C12): any argument, nothing happens any more
-				for i := 0; i < o.AfterEnd; i++ {
-					a := o.AfterEndArgs[c.Choose(len(o.AfterEndArgs), "after-end-arg")]
-					args = append(args, a)
-					ro := r.Next(a)
+				afterEnd := func(x *run, a int, i int) bool {
+					ro := x.r.Next(a)
 					st.Steps++
-					trace = append(trace, ro.String())
 					if ro.Panic != "" {
 						fail("after-end-panic", fmt.Sprintf("Next(%d) after the end panicked: %s", a, ro.Panic))
-						return
+						return false
 					}
 					if ro.K != OEnd {
 						fail("after-end", fmt.Sprintf("call %d after the end, Next(%d): expected end, got %s", i+1, a, ro.String()))
-						return
+						return false
 					}
-					if al, bl := strings.Join(m.Log, ";"), strings.Join(rlog, ";"); o.CompareLog && al != bl {
-						fail("after-end-log", fmt.Sprintf("handler invoked after the end: expected [%s], got [%s]", al, bl))
-						return
+					if al, bl := strings.Join(m.Log, ";"), strings.Join(x.log, ";"); o.CompareLog && al != bl {
+						fail("after-end-log", fmt.Sprintf("handler invoked after the end (call %d, Next(%d)): expected [%s], got [%s]", i+1, a, al, bl))
+						return false
 					}
 					if o.CompareStore {
-						if d := storeDiff(m, storer); d != "" {
-							fail("after-end-store", "variables changed after the end: "+d)
+						if d := storeDiff(m, x.storer); d != "" {
+							fail("after-end-store", fmt.Sprintf("variables changed after the end (call %d, Next(%d)): %s", i+1, a, d))
+							return false
+						}
+					}
+					return true
+				}
+				if o.AfterEnd > 0 && o.StateKey != nil {
+					k0 := o.StateKey(r, storer)
+					changed := false
+					for _, a := range o.AfterEndArgs {
+						args = append(args, a)
+						trace = append(trace, fmt.Sprintf("after-end Next(%d)", a))
+						if !afterEnd(x, a, 0) {
 							return
+						}
+						if o.StateKey(r, storer) != k0 {
+							changed = true
+							break
+						}
+					}
+					if !changed {
+						break // every longer sequence behaves like one of these
+					}
+					args = args[:len(args)-1]
+				}
+				if o.AfterEnd > 0 {
+					// every sequence of AfterEnd arguments, each on a fresh replay of this path
+					base := append([]int{}, args...)
+					n := len(o.AfterEndArgs)
+					total := 1
+					for i := 0; i < o.AfterEnd; i++ {
+						total *= n
+					}
+					for seq := 0; seq < total && found == nil; seq++ {
+						y, err, pan := newRun()
+						if err != nil || pan != "" {
+							fail("load-error", "second load of the same script failed")
+							return
+						}
+						for _, a := range base {
+							y.r.Next(a)
+						}
+						args = append([]int{}, base...)
+						for i, q := 0, seq; i < o.AfterEnd; i, q = i+1, q/n {
+							a := o.AfterEndArgs[q%n]
+							args = append(args, a)
+							if !afterEnd(y, a, i) {
+								return
+							}
 						}
 					}
 				}
